@@ -19,6 +19,9 @@ def content(s):
         return gen_bytes(int(p[1]), int(p[2]))
     if p[0] == "zero":
         return bytes(int(p[1]))
+    if p[0] == "pat":
+        pat, n = bytes.fromhex(p[1]), int(p[2])
+        return bytes(pat[i % len(pat)] for i in range(n))
     return b"" if s == "-" else bytes.fromhex(s)
 
 
